@@ -4,9 +4,6 @@ From Coq Require Import List NArith ZArith Bool Arith Lia.
 From C06 Require Import Model Spec Util Proofs.
 Import ListNotations.
 
-Definition cnt (rest : list nat) (p j : nat) : nat :=
-  length (filter (fun r => (p <=? r) && (r <? p + j)) rest).
-
 Lemma cnt_bound : forall rest p j, NoDup rest -> cnt rest p j <= j.
 Proof.
   intros rest p j Hnd. unfold cnt.
